@@ -399,20 +399,47 @@ example : recoverFlushCrashed 3 (dirAfter 2 0 [.ingest 0 ⟨1, 1, 1⟩ false, .w
 
 /-! ### metric names (RecoverMNameWALData, repair c10-5) -/
 
-/-- C10.R10 `name_recovery_complete`: RecoverMNameWALData run to its end writes the names whose name-WAL append had
-completed into the .mnm file of their segment — whether or not a block of that segment is on disk (FlushMetricNames
+/-- C10.R10 `name_recovery_complete`: RecoverMNameWALData run to its end leaves in the .mnm file of the segment exactly
+the names whose name-WAL append had completed and the names the file already held (repair c10-8: a file is there when a
+segment rotation died after its FlushMetricNames) — whether or not a block of that segment is on disk (FlushMetricNames
 creates the directory) —, leaves the other .mnm files alone and removes the WAL -/
 theorem name_recovery_complete (seg : Nat) (ns : List Nat) (mnm : List (Nat × List Nat)) (hne : ns ≠ []) :
     (recoverNames seg { wal := some ns, mnm := mnm }).wal = none ∧
-    SigModel.Lemmas.C10R.mnmLookup seg (recoverNames seg { wal := some ns, mnm := mnm }).mnm = some ns ∧
+    (∃ out, SigModel.Lemmas.C10R.mnmLookup seg (recoverNames seg { wal := some ns, mnm := mnm }).mnm = some out ∧
+      ∀ n, n ∈ out ↔ n ∈ ns ∨ n ∈ (SigModel.Lemmas.C10R.mnmLookup seg mnm).getD []) ∧
     ∀ seg', seg' ≠ seg →
       SigModel.Lemmas.C10R.mnmLookup seg' (recoverNames seg { wal := some ns, mnm := mnm }).mnm = SigModel.Lemmas.C10R.mnmLookup seg' mnm := by
   have h := SigModel.Lemmas.C10R.recoverNames_spec seg ns mnm
   have he : ns.isEmpty = false := by cases ns with | nil => exact absurd rfl hne | cons _ _ => rfl
   rw [he] at h
-  refine ⟨h.1, ?_, ?_⟩
-  · rw [h.2]; exact SigModel.Lemmas.C10R.mnmLookup_writeMnm seg ns mnm
-  · intro seg' hs; rw [h.2]; exact SigModel.Lemmas.C10R.mnmLookup_writeMnm_other seg seg' ns mnm hs
+  refine ⟨h.1, ⟨_, by rw [h.2]; exact SigModel.Lemmas.C10R.mnmLookup_writeMnm seg _ mnm, ?_⟩, ?_⟩
+  · intro n
+    rw [SigModel.Lemmas.C10R.mem_mergeNames, SigModel.Lemmas.C10R.mnmNamesOf_eq_lookup]
+    exact Or.comm
+  · intro seg' hs; rw [h.2]; exact SigModel.Lemmas.C10R.mnmLookup_writeMnm_other seg seg' _ mnm hs
+
+/-- C10.R10b `rotation_crash_keeps_names`, FULL strength (repair c10-8): a segment rotation that died between its
+FlushMetricNames and the deletion of the name WAL leaves the complete names file (`allNames`) next to a WAL that holds
+the names whose append had completed — any sub-collection of them.  Recovery ends with exactly the names of the file:
+none lost, none added, for every such pair of lists. -/
+theorem rotation_crash_keeps_names (seg : Nat) (walNames allNames : List Nat) (mnm : List (Nat × List Nat))
+    (hsub : ∀ n ∈ walNames, n ∈ allNames) :
+    SigModel.Lemmas.C10R.mnmLookup seg (recoverNames seg { wal := some walNames, mnm := writeMnm seg allNames mnm }).mnm = some allNames :=
+  SigModel.Lemmas.C10R.recoverNames_after_rotation_flush seg walNames allNames mnm hsub
+
+def RotationCrashKeepsNamesNoMerge : Prop :=
+  ∀ (seg : Nat) (walNames allNames : List Nat) (mnm : List (Nat × List Nat)), (∀ n ∈ walNames, n ∈ allNames) →
+    SigModel.Lemmas.C10R.mnmLookup seg (recoverNamesNoMerge seg { wal := some walNames, mnm := writeMnm seg allNames mnm }).mnm = some allNames
+
+/-- C10.R10b-old FALSE before the repair c10-8: only the WAL names were written over the file.  Names 1 and 2 flushed by
+the interrupted rotation, name 1 in the WAL: the file ends with name 1 only (in the real file the bytes of the old,
+longer content stayed behind the new one: the reader took them for names or ran out of bounds — detector
+sig=walrecover/crash-in-segment-rotation/metric-name-lost and …/names-file-unreadable). -/
+theorem rotation_crash_keeps_names_old_counterexample : ¬ RotationCrashKeepsNamesNoMerge := by
+  intro hall
+  have h := hall 0 [1] [1, 2] [] (by decide)
+  revert h
+  decide
 
 /-- C10.R11 `name_recovery_crash_safe`, FULL strength: wherever the first restart's RecoverMNameWALData is interrupted
 (after `m` completed steps: FlushMetricNames, then deleteWalFile), a second restart ends exactly as an uninterrupted
